@@ -1,10 +1,74 @@
 import Driver.Common
+import RxModel.Thr2Lock
 open Lean Drv
 
 namespace DrvThr2
+open Thr2
 
-def handle (op : String) (_j : Json) : Except String Json := do
+def kindToNotif : String → Except String (Notif Val)
+  | "N" => pure (.next .none)
+  | "E" => pure (.error "e")
+  | "C" => pure .completed
+  | k => throw s!"bad notification kind {k}"
+
+def notifKind : Notif Val → String
+  | .next _ => "N"
+  | .error _ => "E"
+  | .completed => "C"
+
+def opOfJson (j : Json) : Except String (Op Val) := do
+  match j with
+  | .str "acq" => pure .acq
+  | .str "rel" => pure .rel
+  | .str "free" => pure .free
+  | .arr #[.str "call", .str k] => do pure (.call (← kindToNotif k))
+  | _ => throw s!"bad op {j.compress}"
+
+def nth {β} (l : List β) (i : Nat) (d : β) : β := (l[i]?).getD d
+
+/-- `lock_replay`: per-thread straight-line programs (ops observed on the real run) executed by the
+interleaving model under the observed schedule.  Returns the label of every step the model took,
+what it delivered to the subscriber, the maximal number of threads inside a callback and the
+order of lock acquisitions. -/
+def lockReplay (j : Json) : Except String Json := do
+  let progsJ ← getArr j "progs"
+  let progs ← progsJ.mapM fun pj =>
+    match pj with
+    | .arr ops => ops.toList.mapM opOfJson
+    | _ => throw "bad program"
+  let sched := (← getArr j "sched").filterMap (fun x => x.getNat?.toOption)
+  let tprogs := progs.map progOf
+  let S0 : Sys Unit Val := init () (fun i => nth tprogs i .halt)
+  let (labels, S) := runLabels S0 sched
+  pure (Json.mkObj [
+    ("labels", Json.arr (labels.map Json.str).toArray),
+    ("delivered", Json.arr (S.delivered.map (fun n => Json.str (notifKind n))).toArray),
+    ("calls", Json.arr (S.calls.map (fun n => Json.str (notifKind n))).toArray),
+    ("max_active", .num (JsonNumber.fromNat S.maxActive)),
+    ("acq", Json.arr (S.acq.map (fun i => Json.num (JsonNumber.fromNat i))).toArray),
+    ("lock_free", .bool S.lock.isNone)])
+
+def notifsOf (j : Json) (k : String) : Except String (List (Notif Val)) := do
+  (← getArr j k).mapM fun x =>
+    match x with
+    | .str s => kindToNotif s
+    | _ => throw "bad notification"
+
+/-- `amb_run`: the `amb` model itself (two sides, any schedule). -/
+def ambRun (j : Json) : Except String Json := do
+  let ls ← notifsOf j "left"
+  let rs ← notifsOf j "right"
+  let sched := (← getArr j "sched").filterMap (fun x => x.getNat?.toOption)
+  let S := runSched (init none (ambProgs ls rs)) sched
+  pure (Json.mkObj [
+    ("delivered", Json.arr (S.delivered.map (fun n => Json.str (notifKind n))).toArray),
+    ("max_active", .num (JsonNumber.fromNat S.maxActive)),
+    ("choice", match S.st with | none => .null | some b => .bool b)])
+
+def handle (op : String) (j : Json) : Except String Json := do
   match op with
+  | "lock_replay" => lockReplay j
+  | "amb_run" => ambRun j
   | _ => throw s!"unknown op {op}"
 
 end DrvThr2
